@@ -26,6 +26,9 @@ size_t g_k;             /* an arbitrary index fixed by the harness: pointwise "f
 /* vacuity guard: a cover goal is an assertion that must FAIL (the condition is reachable) */
 #define VF_COVER(c) __CPROVER_assert(!(c), "VF_COVER " #c)
 
+/* every harness starts with no tracked block (the ghost is cleared at the start of the top-level call) */
+#define VF_INIT() do { g_live = NULL; } while (0)
+
 int nondet_int(void);
 _Bool nondet_bool(void);
 size_t nondet_size_t(void);
@@ -60,14 +63,14 @@ void *vf_alloc(size_t n)
     if (VF_MAY_FAIL) { return NULL; }
     p = vf_block(n);
     __CPROVER_assume(p != NULL);
-    g_hook_allocs++;
-    if (nondet_bool()) { g_live = p; }
+    __CPROVER_assume(g_hook_allocs < (size_t)-1); g_hook_allocs++;   /* ghost counter: cannot wrap in any real execution */
+    if (g_live == NULL && nondet_bool()) { g_live = p; }   /* at most one tracked block; the choice is arbitrary */
     return p;
 }
 
 void vf_free(void *p)
 {
-    if (p != NULL) { g_hook_frees++; if (p == g_live) { g_live = NULL; } }
+    if (p != NULL) { __CPROVER_assume(g_hook_frees < (size_t)-1); g_hook_frees++; if (p == g_live) { g_live = NULL; } }
     free(p);
 }
 
@@ -79,24 +82,25 @@ void *vf_realloc(void *p, size_t n)
     if (VF_MAY_FAIL) { return NULL; }
     q = vf_block(n);
     __CPROVER_assume(q != NULL);
-    g_hook_allocs++;
+    __CPROVER_assume(g_hook_allocs < (size_t)-1); g_hook_allocs++;
     if (p != NULL)
     {
         size_t old = __CPROVER_OBJECT_SIZE(p);
         __CPROVER_assert(__CPROVER_POINTER_OFFSET(p) == 0, "realloc: pointer is the start of a block");
         if (g_k < old && g_k < n) { q[g_k] = ((unsigned char*)p)[g_k]; }
-        g_hook_frees++;
+        __CPROVER_assume(g_hook_frees < (size_t)-1); g_hook_frees++;
         if (p == g_live) { g_live = NULL; }
         free(p);
     }
-    if (nondet_bool()) { g_live = q; }
+    if (g_live == NULL && nondet_bool()) { g_live = q; }
     return q;
 }
 
 /* the libc allocator as named by library code (cJSON.c is compiled with malloc->vf_libc_malloc etc.) */
-void *vf_libc_malloc(size_t n) { g_libc_calls++; return vf_alloc(n); }
-void vf_libc_free(void *p) { g_libc_calls++; vf_free(p); }
-void *vf_libc_realloc(void *p, size_t n) { g_libc_calls++; return vf_realloc(p, n); }
+#define VF_LIBC_TICK() do { __CPROVER_assume(g_libc_calls < (size_t)-1); g_libc_calls++; } while (0)
+void *vf_libc_malloc(size_t n) { VF_LIBC_TICK(); return vf_alloc(n); }
+void vf_libc_free(void *p) { VF_LIBC_TICK(); vf_free(p); }
+void *vf_libc_realloc(void *p, size_t n) { VF_LIBC_TICK(); return vf_realloc(p, n); }
 
 /* addresses taken in ordinary code so that goto-instrument resolves the hook pointers to them */
 void *(*vf_fp_a1)(size_t) = vf_alloc;          void (*vf_fp_f1)(void*) = vf_free;
@@ -143,16 +147,14 @@ int strcmp(const char *a, const char *b)
 }
 #endif
 
-/* strncmp against a literal of at most 5 bytes (the only use in cJSON.c): unrolled, no loop */
+/* strncmp against a literal of at most 5 bytes (the only use in cJSON.c): written without a loop */
+#define VF_SNC(i) if ((i) >= n) { return 0; } \
+    if ((unsigned char)a[i] != (unsigned char)b[i]) { return (int)(unsigned char)a[i] - (int)(unsigned char)b[i]; } \
+    if (a[i] == 0) { return 0; }
 int strncmp(const char *a, const char *b, size_t n)
 {
     __CPROVER_assert(n <= 5, "strncmp model: n <= 5");
-    for (size_t i = 0; i < 5; i++)
-    {
-        if (i >= n) { return 0; }
-        if ((unsigned char)a[i] != (unsigned char)b[i]) { return (int)(unsigned char)a[i] - (int)(unsigned char)b[i]; }
-        if (a[i] == 0) { return 0; }
-    }
+    VF_SNC(0) VF_SNC(1) VF_SNC(2) VF_SNC(3) VF_SNC(4)
     return 0;
 }
 
@@ -181,27 +183,71 @@ int tolower(int c)
 }
 
 /* ---------------------------------------------------------------- stdlib / stdio / locale models */
-/* strtod, C11 7.22.1.3: endptr==nptr iff no subject sequence (first non-space byte cannot start a number);
- * otherwise nptr < endptr <= nptr+strlen.  The VALUE is unconstrained: correct rounding is assumed, not proved. */
-double g_strtod_value;  /* ghost: the value the model returned last */
+/* localeconv: pure; the harness initialises the (model-owned) lconv once via VF_INIT_LOCALE().
+ * assumption: the decimal point is a punctuation byte, never a digit, sign, exponent letter or NUL,
+ * and the locale is not changed during the call (README). */
+static struct lconv vf_lconv;
+static char vf_dp[2];
+struct lconv *localeconv(void) { return &vf_lconv; }
+#define VF_INIT_LOCALE() do { unsigned char dp_ = nondet_uchar(); \
+    __CPROVER_assume(dp_ == '.' || dp_ == ',' || dp_ == 0xd9); \
+    vf_dp[0] = (char)dp_; vf_dp[1] = 0; vf_lconv.decimal_point = vf_dp; } while (0)
+#define VF_DECIMAL_POINT ((unsigned char)vf_dp[0])
+
+
+/* strtod, C11 7.22.1.3, restricted to the byte set the library can pass ([0-9+-eE] and the decimal point):
+ * the subject sequence is  [+-]? ( digits+ (dp digits*)? | dp digits+ ) ( [eE] [+-]? digits+ )?  and *endptr is its end;
+ * no conversion <=> endptr == nptr and the result is 0.  The VALUE of a conversion is unconstrained except that it is
+ * not NaN: correct rounding is an assumption, not proved.
+ * vf_numlen(s, n, dp) is that grammar as a pure function on at most n bytes (also used by the parse_number contract). */
+static size_t vf_numlen(const unsigned char *s, size_t n, unsigned char dp)
+{
+    size_t end = 0, i;
+    int st = 0;
+    for (i = 0; i < 64; i++)
+    {
+        unsigned char c;
+        _Bool dig, sign, ex, pt;
+        if (i >= n) { break; }
+        c = s[i];
+        dig = (c >= '0' && c <= '9'); sign = (c == '+' || c == '-'); ex = (c == 'e' || c == 'E'); pt = (c == dp);
+        if (st == 0)      { if (sign) st = 1; else if (dig) { st = 2; end = i + 1; } else if (pt) st = 3; else break; }
+        else if (st == 1) { if (dig) { st = 2; end = i + 1; } else if (pt) st = 3; else break; }
+        else if (st == 2) { if (dig) { end = i + 1; } else if (pt) { st = 4; end = i + 1; } else if (ex) st = 5; else break; }
+        else if (st == 3) { if (dig) { st = 4; end = i + 1; } else break; }
+        else if (st == 4) { if (dig) { end = i + 1; } else if (ex) st = 5; else break; }
+        else if (st == 5) { if (sign) st = 6; else if (dig) { st = 7; end = i + 1; } else break; }
+        else if (st == 6) { if (dig) { st = 7; end = i + 1; } else break; }
+        else              { if (dig) { end = i + 1; } else break; }
+    }
+    return end;
+}
+/* ghost record of the last strtod call: value returned, length of the string passed, bytes consumed, and the byte of the
+ * argument at the arbitrary index g_k (pointwise view of the argument string for the caller's contract) */
+double g_strtod_value; size_t g_strtod_len, g_strtod_consumed; unsigned char g_strtod_at_k;
+#define GHOST_STRTOD g_strtod_value, g_strtod_len, g_strtod_consumed, g_strtod_at_k
 double strtod(const char *nptr, char **endptr)
 {
     double v = nondet_double();
-    size_t consumed = nondet_size_t();
-    size_t len = 0;
+    size_t len, k, consumed;
+    unsigned char dp = (unsigned char)vf_dp[0];
     __CPROVER_assert(__CPROVER_r_ok(nptr, 1), "strtod: readable");
-    /* the only caller passes a 64-byte stack buffer: find the terminator by a bounded scan */
     for (len = 0; len < 64; len++) { if (nptr[len] == 0) break; }
     __CPROVER_assert(len < 64, "strtod model: NUL-terminated within 64 bytes");
+    for (k = 0; k < 64; k++)
     {
-        unsigned char c = (unsigned char)nptr[0];
-        _Bool may_start = (c >= '0' && c <= '9') || c == '-' || c == '+' || c == '.' || c == ',' ||
-                          c == 'i' || c == 'I' || c == 'n' || c == 'N' || c == ' ' || (c >= 9 && c <= 13);
-        if (!may_start || nondet_bool()) { consumed = 0; }
-        else { __CPROVER_assume(consumed >= 1 && consumed <= len); }
+        unsigned char c;
+        if (k >= len) break;
+        c = (unsigned char)nptr[k];
+        __CPROVER_assert((c >= '0' && c <= '9') || c == '+' || c == '-' || c == 'e' || c == 'E' || c == dp,
+                         "strtod model domain: number token holds only [0-9+-eE] and the decimal point");
     }
+    consumed = vf_numlen((const unsigned char*)nptr, len, dp);
+    if (consumed == 0) { v = 0.0; }
+    __CPROVER_assume(!__CPROVER_isnand(v));
     if (endptr != NULL) { *endptr = (char*)nptr + consumed; }
-    g_strtod_value = v;
+    g_strtod_value = v; g_strtod_len = len; g_strtod_consumed = consumed;
+    g_strtod_at_k = (g_k < len) ? (unsigned char)nptr[g_k] : 0;
     return v;
 }
 
@@ -235,16 +281,5 @@ int vf_sscanf__lg(const char *s, double *d)
     *d = nondet_double();
     return 1;
 }
-
-/* localeconv: pure; the harness initialises the (model-owned) lconv once via VF_INIT_LOCALE().
- * assumption: the decimal point is a punctuation byte, never a digit, sign, exponent letter or NUL,
- * and the locale is not changed during the call (README). */
-static struct lconv vf_lconv;
-static char vf_dp[2];
-struct lconv *localeconv(void) { return &vf_lconv; }
-#define VF_INIT_LOCALE() do { unsigned char dp_ = nondet_uchar(); \
-    __CPROVER_assume(dp_ == '.' || dp_ == ',' || dp_ == 0xd9); \
-    vf_dp[0] = (char)dp_; vf_dp[1] = 0; vf_lconv.decimal_point = vf_dp; } while (0)
-#define VF_DECIMAL_POINT ((unsigned char)vf_dp[0])
 
 #endif
